@@ -123,7 +123,16 @@ def gen_variances(g, nt, cls):
         if m == 1:
             return float(g.choice([0.25, 1.0, 9.0, 100.0]))
         v = g.choice([0.0, 0.04, 1.0, 2.5, 16.0], nt).astype(float)
-        return v if m == 2 else v.astype("float32") if g.random() < 0.3 else v
+        if nt > 1 and g.random() < 0.4:      # exact zeros on some traits only
+            v = g.choice([0.04, 1.0, 2.5, 16.0], nt).astype(float); v[g.permutation(nt)[: int(g.integers(1, nt))]] = 0.0
+        if m == 2:
+            return v
+        r = g.random()
+        if r < 0.3:
+            return v.astype("float32")
+        if r < 0.55:                          # integer dtype, e.g. var_err = numpy.array([2, 0, 9])
+            return numpy.ceil(v).astype(g.choice(["int64", "int32"]))
+        return v
     if cls == "all-zero":
         return tuple((None if g.random() < 0.3 else (0.0 if g.random() < 0.6 else numpy.zeros(nt))) for _ in range(3))
     return one(), one(), one()
@@ -211,6 +220,60 @@ def judge_frame(ctx, df, pg, M, truth, scale, nenv, nrep, site, icls, coords, ze
                   witness={"model": M["kind"], "beta": M["beta"], "u_a": M["u_a"], "u_d": M["u_d"], "raw": pg.mat, "taxa": pg.taxa,
                            "records": df.head(12).to_dict("list"), "truth": truth}, coords=coords)
     return ix
+
+
+def cells_of(df):
+    """Integer cell index of every record and the environment index of every (environment, replicate) cell."""
+    env = df["env"].to_numpy(); rep = df["rep"].to_numpy()
+    ekeys, einv = numpy.unique(env, return_inverse=True)
+    ckeys, cinv = numpy.unique(numpy.stack([numpy.asarray(einv).ravel(), rep], axis=1), axis=0, return_inverse=True)
+    return numpy.asarray(cinv).ravel(), ckeys[:, 0].astype(int)
+
+
+REL_CONST = {"error": "records of one (environment, replicate) cell differ from truth by one common effect",
+             "replicate": "cells of one environment share one effect when replicate and error variance are zero",
+             "environment": "no effect at all when all variances are zero"}
+REL_INDEP = {"error": "every record has its own error effect", "replicate": "every (environment, replicate) has its own effect",
+             "environment": "every environment has its own effect"}
+
+
+def judge_structure(ctx, df, ix, truth, tcols, n, var_env, var_rep, var_err, site, icls, coords, wit):
+    """Trait by trait, on ONE (small) trial: a stratum whose requested variance is zero must vanish exactly (C14.constancy) and a
+    stratum whose requested variance is positive must consist of pairwise distinct effects (C14.independence) - whatever the other
+    traits' variances are."""
+    vals = df[tcols].to_numpy(dtype=float)
+    resid = vals - truth[ix]
+    cinv, env_of_cell = cells_of(df)
+    within, cm, em, ecnt = FT.decompose(resid, cinv, env_of_cell)
+    cdev = cm - em[env_of_cell]
+    multi = ecnt[env_of_cell] >= 2
+    for j in range(vals.shape[1]):
+        colscale = max(1.0, float(numpy.abs(vals[:, j]).max()))
+        vr = float(var_rep[j]) + float(var_err[j]) / n
+        q = 64 * numpy.finfo(float).eps * colscale
+        for name, arr, sigma2 in (("error", within[:, j], float(var_err[j])), ("replicate", cdev[:, j], vr), ("environment", em[:, j], float(var_env[j]) + vr)):
+            w = dict(wit, stratum=name, trait=j, requested={"var_env": var_env, "var_rep": var_rep, "var_err": var_err})
+            if sigma2 <= 0.0:
+                maxabs = float(numpy.abs(arr).max()) if len(arr) else 0.0
+                ctx.check("C14.constancy", maxabs <= 10 * FT.tol(colscale), site, REL_CONST[name], icls,
+                          what="%s stratum of trait %d should vanish (requested variance 0) but reaches %.3g" % (name, j, maxabs),
+                          witness=dict(w, max_abs_deviation=maxabs), coords=coords)
+                continue
+            if name == "error":
+                eff = arr if n >= 2 else arr[:0]
+            elif name == "replicate":
+                eff = arr[multi]
+            else:
+                eff = arr
+            if len(eff) < 2:
+                continue
+            if sigma2 ** 0.5 < 1e4 * q:
+                ctx.sumnote("independence: strata whose noise is below the resolution of the values (not judged)")
+                continue
+            nd = len(numpy.unique(numpy.rint(eff / q)))
+            ctx.check("C14.independence", nd >= int(numpy.ceil(0.75 * len(eff))), site, REL_INDEP[name], icls,
+                      what="%s stratum of trait %d (requested variance %.4g): only %d distinct effects among %d" % (name, j, sigma2, nd, len(eff)),
+                      witness=dict(w, distinct=nd, of=len(eff), head=eff[:12]), coords=coords)
 
 
 # ---------------------------------------------------------------- flow family
@@ -433,10 +496,12 @@ def h2_session(ctx, g, pt, pg, mod, M, coords):
                 ctx.raised("interleaved operation in a heritability session", e)
         # ---- the call
         hkind = "set_h2" if g.random() < 0.6 else "set_H2"
-        hm = int(g.integers(5))
-        h = [1.0, 0.5, 1e-6, float(g.uniform(0.01, 1.0)), None][hm]
+        hm = int(g.integers(6))
+        h = [1.0, 0.5, 1e-6, float(g.uniform(0.01, 1.0)), None, None][hm]
         if h is None:
             h = g.uniform(0.05, 1.0, Mc["nt"])
+            if hm == 5 and Mc["nt"] > 1:      # exactly 1.0 on some traits only
+                h[g.permutation(Mc["nt"])[: int(g.integers(1, Mc["nt"]))]] = 1.0
         pk = "the population" if (step == 0 and g.random() < 0.6) else ["the population", "sub-selection", "new taxa", "new taxa"][int(g.integers(4))]
         pop = pg if pk == "the population" else gen_other_population(g, pg, pk)
         history.append("%s(%s, %s of %d taxa)" % (hkind, numpy.round(h, 6).tolist() if numpy.ndim(h) else h, pk, pop.ntaxa))
@@ -508,6 +573,32 @@ def case_flow(ctx, c):
                     "var_err": var_err, "heritability": hkind, "rng": rname, "taxa": pg.taxa})
     icls = "taxa unnamed" if pg.taxa is None else ("ungrouped population" if pg.taxa_grp is None else "named grouped taxa")
     ix = judge_frame(ctx, df, pg, M, truth, scale, nenv, nrep, "G_E_Phenotyping.phenotype", icls, coords, zero=zero)
+    hcls = "error variance fixed by a heritability" if hkind is not None else "explicit variances"
+    if ix is not None:
+        judge_structure(ctx, df, ix, truth, trait_columns(df, M), n, var_env, var_rep, var_err, "G_E_Phenotyping.phenotype", "small trial, " + hcls, coords,
+                        {"nenv": nenv, "nrep": nrep, "ntaxa": n, "heritability": hkind, "rng": rname})
+    # ---- the same live protocol object after re-assigning its design: nothing of the first trial may survive
+    if g.random() < 0.35:
+        nenv2 = int(g.integers(1, 7))
+        nrep2_arg = int(g.integers(1, 4)) if g.random() < 0.5 else g.integers(1, 5, nenv2).astype("int64")
+        nrep2 = [nrep2_arg] * nenv2 if numpy.ndim(nrep2_arg) == 0 else [int(x) for x in nrep2_arg]
+        venv2, vrep2, verr2 = gen_variances(g, nt, "all-zero" if g.random() < 0.3 else "noisy")
+        try:
+            pt.nenv = nenv2; pt.nrep = nrep2_arg
+            pt.var_env = venv2; pt.var_rep = vrep2; pt.var_err = verr2
+            df2 = pt.phenotype(pg)
+        except Exception as e:
+            ctx.raised("G_E_Phenotyping.phenotype after re-assigning the design", e); df2 = None
+        if df2 is not None:
+            ctx.hook("G_E_Phenotyping.phenotype calls")
+            ctx.sumnote("second trials on a re-designed live protocol")
+            ve2, vr2, vx2 = as_vec(venv2, nt), as_vec(vrep2, nt), as_vec(verr2, nt)
+            icls2 = "re-designed live protocol object"
+            ix2 = judge_frame(ctx, df2, pg, M, truth, scale, nenv2, nrep2, "G_E_Phenotyping.phenotype", icls2, coords,
+                              zero=(ve2 == 0) & (vr2 == 0) & (vx2 == 0))
+            if ix2 is not None:
+                judge_structure(ctx, df2, ix2, truth, trait_columns(df2, M), n, ve2, vr2, vx2, "G_E_Phenotyping.phenotype", icls2, coords,
+                                {"nenv": nenv2, "nrep": nrep2, "ntaxa": n, "first design": {"nenv": nenv, "nrep": nrep, "var_env": var_env, "var_rep": var_rep, "var_err": var_err}})
     # ---- true phenotyping / true breeding values
     try:
         dft = TruePhenotyping(mod).phenotype(pg)
@@ -603,7 +694,11 @@ def gen_design(g, tier, c):
         r = int(g.integers(1, 5)); nrep = numpy.full(nenv, r, dtype="int64"); scalar = True
     else:
         nrep = g.integers(1, 5, nenv).astype("int64"); scalar = False
-    cls = ["env only", "rep only", "err only", "env+rep", "mixed", "mixed", "via set_h2", "via set_H2"][c % 8]     # every class in every run
+    cls = ["env only", "rep only", "err only", "env+rep", "mixed", "mixed", "via set_h2", "via set_H2",
+           "err zero on some traits", "rep zero on some traits", "env zero on some traits", "heritability exactly 1 on some traits"][c % 12]     # every class in every run
+    some = cls.endswith("on some traits")
+    if some:
+        nt = int(g.integers(2, 4))
     pool = [1e-4, 0.04, 1.0, 2.5, 16.0, 400.0]
 
     def draw(allow_zero):
@@ -611,8 +706,20 @@ def gen_design(g, tier, c):
         if allow_zero:
             v[g.random(nt) < 0.25] = 0.0
         return v
+    def partly_zero():
+        v = g.choice(pool, nt).astype(float)
+        v[g.permutation(nt)[: int(g.integers(1, nt))]] = 0.0
+        return v
     z = numpy.zeros(nt)
-    if cls == "env only":
+    if cls == "err zero on some traits":
+        ve, vr, vx = (draw(True) if g.random() < 0.5 else z), z, partly_zero()
+    elif cls == "rep zero on some traits":
+        ve, vr, vx = (draw(True) if g.random() < 0.5 else z), partly_zero(), (draw(True) if g.random() < 0.4 else z)
+    elif cls == "env zero on some traits":
+        ve, vr, vx = partly_zero(), (draw(True) if g.random() < 0.4 else z), (draw(True) if g.random() < 0.4 else z)
+    elif cls == "heritability exactly 1 on some traits":
+        ve, vr, vx = draw(True), (draw(True) if g.random() < 0.4 else z), z
+    elif cls == "env only":
         ve, vr, vx = draw(False), z, z
     elif cls == "rep only":
         ve, vr, vx = z, draw(False), z
@@ -622,14 +729,20 @@ def gen_design(g, tier, c):
         ve, vr, vx = draw(True), draw(False), z
     else:
         ve, vr, vx = draw(True), draw(True), draw(True)
-    h = None
+    h = None; hfun = None
     if cls.startswith("via"):
         h = g.uniform(0.05, 0.95, nt) if g.random() < 0.5 else float(g.choice([0.2, 0.5, 0.9]))
-    scalar_var = g.random() < 0.3
+        hfun = cls.split()[1]
+    elif cls.startswith("heritability"):
+        h = g.uniform(0.05, 0.95, nt); h[g.permutation(nt)[: int(g.integers(1, nt))]] = 1.0
+        hfun = "set_h2" if g.random() < 0.5 else "set_H2"
+        if n == 1:
+            n = 2                      # a single taxon has no genetic variance: the heritability would fix nothing
+    scalar_var = (g.random() < 0.3) and not some
     if scalar_var:      # the same request for every trait, passed as a plain number (None for zero half of the time)
         ve, vr, vx = [numpy.full(nt, v[0]) for v in (ve, vr, vx)]
     none_zero = bool(g.random() < 0.5)
-    return dict(n=n, p=p, nt=nt, nenv=nenv, nrep=nrep, scalar=scalar, cls=cls, var_env=ve, var_rep=vr, var_err=vx, h=h,
+    return dict(n=n, p=p, nt=nt, nenv=nenv, nrep=nrep, scalar=scalar, cls=cls, var_env=ve, var_rep=vr, var_err=vx, h=h, hfun=hfun,
                 scalar_var=scalar_var, none_zero=none_zero)
 
 
@@ -653,7 +766,7 @@ def run_trial(D, seed, mult, rkind):
     pg = DensePhasedGenotypeMatrix(raw, taxa=names, taxa_grp=g.integers(0, 3, n).astype("int64"),
                                    vrnt_chrgrp=numpy.ones(p, dtype="int64"), vrnt_phypos=numpy.arange(1, p + 1, dtype="int64"))
     beta = g.normal(0, 5, (1, nt)); u_a = g.normal(0, 1, (p, nt)); u_a[0] = numpy.abs(u_a[0]) + 0.5
-    dom = D["cls"] == "via set_H2" or g.random() < 0.3
+    dom = D["hfun"] == "set_H2" or g.random() < 0.3
     u_d = g.normal(0, 0.7, (p, nt)) if dom else None
     trait = numpy.array(TRAIT_POOL[:nt], dtype=object)
     mod = (DenseAdditiveDominanceLinearGenomicModel(beta=beta, u_misc=None, u_a=u_a, u_d=u_d, trait=trait) if dom
@@ -677,7 +790,7 @@ def run_trial(D, seed, mult, rkind):
     var_err = D["var_err"].copy()
     nset = 0
     if D["h"] is not None and n > 1:
-        (pt.set_h2 if D["cls"] == "via set_h2" else pt.set_H2)(D["h"], pg)
+        getattr(pt, D["hfun"])(D["h"], pg)
         nset = 1
         var_err = numpy.array(pt.var_err, dtype=float)      # the error variance the heritability fixed (its formula is judged by C14.h2)
     df = pt.phenotype(pg)
@@ -692,11 +805,7 @@ def strata(D, pg, M, truth, df, var_err):
     tcols = trait_columns(df, M)
     vals = df[tcols].to_numpy(dtype=float)
     resid = vals - truth[ix]
-    env = df["env"].to_numpy(); rep = df["rep"].to_numpy()
-    ekeys, einv = numpy.unique(env, return_inverse=True)
-    ckeys, cinv = numpy.unique(numpy.stack([einv, rep], axis=1), axis=0, return_inverse=True)
-    cinv = numpy.asarray(cinv).ravel()
-    env_of_cell = ckeys[:, 0].astype(int)
+    cinv, env_of_cell = cells_of(df)
     tests = list(FT.level_tests(resid, cinv, env_of_cell, pg.ntaxa, D["var_env"], D["var_rep"], var_err))
     return tests, resid, cinv, env_of_cell, vals
 
@@ -737,9 +846,7 @@ def case_stat(ctx, c, level):
         if sigma2 <= 0.0:
             # the stratum must vanish: effects constant within (env), (env, rep)
             ctx.check("C14.constancy", maxabs <= 10 * FT.tol(colscale), site,
-                      {"error": "records of one (environment, replicate) cell differ from truth by one common effect",
-                       "replicate": "cells of one environment share one effect when replicate and error variance are zero",
-                       "environment": "no effect at all when all variances are zero"}[stratum], icls,
+                      REL_CONST[stratum], icls,
                       what="%s stratum of trait %d should vanish (requested variance 0) but reaches %.3g" % (stratum, j, maxabs),
                       witness={"design": D, "stratum": stratum, "trait": j, "max abs deviation": maxabs}, coords=coords)
             continue
@@ -767,8 +874,7 @@ def case_stat(ctx, c, level):
                 continue
             nd = len(numpy.unique(numpy.rint(arr / q)))
             ctx.check("C14.independence", nd >= 0.9 * len(arr), site,
-                      {"error": "every record has its own error effect", "replicate": "every (environment, replicate) has its own effect",
-                       "environment": "every environment has its own effect"}[name], icls,
+                      REL_INDEP[name], icls,
                       what="%s stratum of trait %d: only %d distinct effects among %d" % (name, j, nd, len(arr)),
                       witness={"design": D, "stratum": name, "trait": j, "distinct": nd, "of": len(arr), "head": arr[:12]}, coords=coords)
     if suspects:
